@@ -56,3 +56,13 @@ package vgirpc
 //@   requires 0 <= idx && idx < arrLen(iface(structArr))
 //@   at call arrow.Array.IsNull assert [nullidx] arg1 == idx && arg0 == childArr
 //@   at call setFieldFromArrow assert [validx] arg3 == idx && arg2 == childArr
+
+// The scalar date / time-of-day decode arms of setFieldFromArrow: the time handed to the field
+// setter is the UTC midnight of the stored day number (for every int32 day: no overflow, no
+// calendar drift), resp. the epoch plus the stored microsecond of day.
+//
+//@ func setFieldFromArrow
+//@   property C08
+//@   at call setTimeField#1 assert [date32] nsOf(arg3) == date32At(embedded(embedded(c, "dateArray"), "numericArray"), idx) * 86400000000000
+//@   at call setTimeField#3 assert [time64] 0 <= time64At(embedded(embedded(c, "timeArray"), "numericArray"), idx) && time64At(embedded(embedded(c, "timeArray"), "numericArray"), idx) < 86400000000 ==>
+//@       nsOf(arg3) == time64At(embedded(embedded(c, "timeArray"), "numericArray"), idx) * 1000
